@@ -1110,13 +1110,21 @@ class _HLGExprSequence(Expr):
             return None
         from dask.highlevelgraph import HighLevelGraph
 
-        groups = toolz.groupby(
-            lambda x: x.low_level_optimizer if isinstance(x, HLGExpr) else None,
-            self.operands,
-        )
+        # Only merge runs of adjacent operands that share an optimizer: the
+        # results are returned in the order of the (merged) operands, so merging
+        # operands that are not adjacent would move results to other positions
+        groups: list[tuple] = []
+        for operand in self.operands:
+            optimizer = (
+                operand.low_level_optimizer if isinstance(operand, HLGExpr) else None
+            )
+            if groups and groups[-1][0] == optimizer:
+                groups[-1][1].append(operand)
+            else:
+                groups.append((optimizer, [operand]))
         exprs = []
         changed = False
-        for optimizer, group in groups.items():
+        for optimizer, group in groups:
             if len(group) > 1:
                 graphs = [expr.hlg for expr in group]
 
